@@ -91,6 +91,11 @@ structure GInv (sh : Shared) : Prop where
   nodup : ∀ k, k < sh.ntables → (sh.tables k).Nodup
   /-- while nobody owns the lock, the index covers the block -/
   unlocked : sh.lock = none → AllIndexed sh
+  /-- (I3) every pair of every version ever created (superseded ones, and a grown copy not yet
+      published) is a pair of the published version: an outstanding reference into an old block
+      shows the same text -/
+  vers : ∀ i, i < sh.ninners → ∀ o x, (sh.inners i).block.textAt o = some x →
+      sh.blk.textAt o = some x
 
 /-- a completed call `(x, a)` is correct with respect to the shared state -/
 def ResOK (cfg : Cfg) (sh : Shared) (x : Text) : Atom → Prop
@@ -278,7 +283,7 @@ theorem own_lock {cfg sh t l} (hg : GInv sh) (hl : LInv cfg sh t l) (hpc : l.pc 
   simp only [PcInv, hpc] at hp ⊢
   split
   · rename_i hk
-    refine ⟨⟨hg.cur_lt, hg.tcur_lt, hg.cells_lt, hg.tbl_cells, hg.inj, hg.nodup, by simp⟩,
+    refine ⟨⟨hg.cur_lt, hg.tcur_lt, hg.cells_lt, hg.tbl_cells, hg.inj, hg.nodup, by simp, hg.vers⟩,
       ⟨hl.bi_lt, hl.ti_lt, hl.res, ?_⟩,
       ⟨Nat.le_refl _, Nat.le_refl _, fun _ _ => rfl, fun _ _ _ h => h, fun _ _ h => h,
        fun _ _ h => Or.inl h, fun _ h => h⟩, ?_⟩
@@ -306,7 +311,7 @@ theorem own_recheck {cfg sh t l} (hr : cfg.recheck = true) (hg : GInv sh) (hl : 
     unfold Shared.tbl at this
     rw [← hc.1, ← hc.2] at this
     exact hmiss o this ho
-  · refine ⟨⟨hg.cur_lt, hg.tcur_lt, hg.cells_lt, hg.tbl_cells, hg.inj, hg.nodup, fun _ => hall⟩,
+  · refine ⟨⟨hg.cur_lt, hg.tcur_lt, hg.cells_lt, hg.tbl_cells, hg.inj, hg.nodup, fun _ => hall, hg.vers⟩,
       ⟨hl.bi_lt, hl.ti_lt, hl.res, ?_⟩,
       ⟨Nat.le_refl _, Nat.le_refl _, fun _ _ => rfl, fun _ _ _ h => h, fun _ _ h => h,
        fun _ _ h => Or.inl h, fun _ h => h⟩, ?_⟩
@@ -319,7 +324,7 @@ theorem own_unlock {cfg sh t l} (hg : GInv sh) (hl : LInv cfg sh t l) (hpc : l.p
   unfold stepT
   simp only [PcInv, hpc] at hp ⊢
   obtain ⟨hlk, hni, hns, hall, hoff⟩ := hp
-  refine ⟨⟨hg.cur_lt, hg.tcur_lt, hg.cells_lt, hg.tbl_cells, hg.inj, hg.nodup, fun _ => hall⟩,
+  refine ⟨⟨hg.cur_lt, hg.tcur_lt, hg.cells_lt, hg.tbl_cells, hg.inj, hg.nodup, fun _ => hall, hg.vers⟩,
     ⟨hl.bi_lt, hl.ti_lt, ?_, by simp [PcInv, finish]⟩,
     ⟨Nat.le_refl _, Nat.le_refl _, fun _ _ => rfl, fun _ _ _ h => h, fun _ _ h => h,
      fun _ _ h => Or.inl h, fun _ h => h⟩, ?_⟩
@@ -339,7 +344,7 @@ theorem own_publishInner {cfg sh t l} (hg : GInv sh) (hl : LInv cfg sh t l)
   obtain ⟨hlk, hni, hns, hbi, hti, hall, habs, hnb, hcells, hused, htbl⟩ := hp
   have htx : ∀ o, (sh.inners l.nb).block.textAt o = sh.blk.textAt o := by
     intro o; simp only [Block.textAt, hcells]
-  refine ⟨⟨hnb, hg.tcur_lt, ?_, ?_, ?_, hg.nodup, ?_⟩, ⟨hnb, hg.tcur_lt _ hnb, ?_, ?_⟩,
+  refine ⟨⟨hnb, hg.tcur_lt, ?_, ?_, ?_, hg.nodup, ?_, ?_⟩, ⟨hnb, hg.tcur_lt _ hnb, ?_, ?_⟩,
     ⟨Nat.le_refl _, Nat.le_refl _, fun _ _ => rfl, fun _ _ _ h => h, ?_, ?_, ?_⟩, ?_⟩
   · intro o x h
     simp only [Shared.blk] at h ⊢
@@ -353,6 +358,8 @@ theorem own_publishInner {cfg sh t l} (hg : GInv sh) (hl : LInv cfg sh t l)
     rw [htx] at h1 h2
     exact hg.inj o1 o2 x h1 h2
   · intro h; rw [hlk] at h; cases h
+  · intro i hi o x h
+    simp only [Shared.blk]; rw [htx]; exact hg.vers i hi o x h
   · intro x a h
     have := hl.res x a h
     cases a <;> simp only [ResOK] at this ⊢
@@ -405,7 +412,7 @@ theorem own_write {cfg sh t l} (hg : GInv sh) (hl : LInv cfg sh t l) (hpc : l.pc
     intro k hk hm
     obtain ⟨x, hx⟩ := hg.tbl_cells k hk _ hm
     exact hold _ _ hx rfl
-  refine ⟨⟨hg.cur_lt, ?_, ?_, ?_, ?_, hg.nodup, ?_⟩, ⟨hl.bi_lt, hl.ti_lt, ?_, ?_⟩,
+  refine ⟨⟨hg.cur_lt, ?_, ?_, ?_, ?_, hg.nodup, ?_, ?_⟩, ⟨hl.bi_lt, hl.ti_lt, ?_, ?_⟩,
     ⟨Nat.le_refl _, Nat.le_refl _, fun _ _ => rfl, ?_, ?_, ?_, ?_⟩, ?_⟩
   · intro i hi
     simp only [upd_apply]; split
@@ -427,6 +434,15 @@ theorem own_write {cfg sh t l} (hg : GInv sh) (hl : LInv cfg sh t l) (hpc : l.pc
     · cases h2; exact absurd h1 (habs o1)
     · exact hg.inj o1 o2 x h1 h2
   · intro h; rw [hlk] at h; cases h
+  · intro i hi o x h
+    by_cases hib : i = l.bi
+    · subst hib
+      simp only [upd_same] at h
+      rw [hblk]
+      simpa [Shared.blk, hbi, Block.textAt] using h
+    · simp only [upd_ne _ _ hib] at h
+      have h' := hg.vers i hi o x h
+      rw [hblk, if_neg (hold o x h')]; exact h'
   · intro x a h
     have := hl.res x a h
     cases a <;> simp only [ResOK] at this ⊢
@@ -478,7 +494,7 @@ theorem own_publish {cfg sh t l} (hg : GInv sh) (hl : LInv cfg sh t l) (hpc : l.
         inners := (upd sh.inners l.bi { sh.inners l.bi with tcur := sh.ntables }) })
       = insertSet sh.tbl l.off := by
     simp [Shared.tbl, hbi, hti]
-  refine ⟨⟨hg.cur_lt, ?_, ?_, ?_, ?_, ?_, ?_⟩, ⟨hl.bi_lt, Nat.lt_succ_of_lt hl.ti_lt, ?_, ?_⟩,
+  refine ⟨⟨hg.cur_lt, ?_, ?_, ?_, ?_, ?_, ?_, ?_⟩, ⟨hl.bi_lt, Nat.lt_succ_of_lt hl.ti_lt, ?_, ?_⟩,
     ⟨Nat.le_refl _, Nat.le_succ _, ?_, ?_, ?_, ?_, ?_⟩, ?_⟩
   · intro i hi
     simp only [upd_apply]; split
@@ -501,6 +517,14 @@ theorem own_publish {cfg sh t l} (hg : GInv sh) (hl : LInv cfg sh t l) (hpc : l.
     · rename_i hne
       exact hg.nodup k (by simp only at hk; omega)
   · intro h; rw [hlk] at h; cases h
+  · intro i hi o x h
+    rw [hblk]
+    by_cases hib : i = l.bi
+    · subst hib
+      simp only [upd_same] at h
+      exact hg.vers _ hi o x h
+    · simp only [upd_ne _ _ hib] at h
+      exact hg.vers i hi o x h
   · intro x a h
     have := hl.res x a h
     cases a <;> simp only [ResOK] at this ⊢
@@ -558,7 +582,7 @@ theorem own_alloc {cfg sh t l} (hg : GInv sh) (hl : LInv cfg sh t l) (hpc : l.pc
               used := (sh.inners l.bi).block.used + allocSize l.text } }) }) = sh.tbl := by
       simp [Shared.tbl, hbi]
     have hpos := allocSize_pos l.text
-    refine ⟨⟨hg.cur_lt, ?_, ?_, ?_, ?_, hg.nodup, ?_⟩, ⟨hl.bi_lt, hl.ti_lt, ?_, ?_⟩,
+    refine ⟨⟨hg.cur_lt, ?_, ?_, ?_, ?_, hg.nodup, ?_, ?_⟩, ⟨hl.bi_lt, hl.ti_lt, ?_, ?_⟩,
       ⟨Nat.le_refl _, Nat.le_refl _, fun _ _ => rfl, ?_, ?_, ?_, ?_⟩, ?_⟩
     · intro i hi
       simp only [upd_apply]; split
@@ -574,6 +598,14 @@ theorem own_alloc {cfg sh t l} (hg : GInv sh) (hl : LInv cfg sh t l) (hpc : l.pc
       rw [hblk] at h1 h2
       exact hg.inj o1 o2 x h1 h2
     · intro h; rw [hlk] at h; cases h
+    · intro i hi o x h
+      rw [hblk]
+      by_cases hib : i = l.bi
+      · subst hib
+        simp only [upd_same] at h
+        simpa [Shared.blk, hbi, Block.textAt] using h
+      · simp only [upd_ne _ _ hib] at h
+        exact hg.vers i hi o x h
     · intro x a h
       have := hl.res x a h
       cases a <;> simp only [ResOK] at this ⊢
@@ -623,7 +655,7 @@ theorem own_alloc {cfg sh t l} (hg : GInv sh) (hl : LInv cfg sh t l) (hpc : l.pc
           ntables := sh.ntables + 1 }) = sh.tbl := by
       simp only [Shared.tbl, hcur]
       exact upd_ne _ _ (Nat.ne_of_lt htc)
-    refine ⟨⟨Nat.lt_succ_of_lt hg.cur_lt, ?_, ?_, ?_, ?_, ?_, ?_⟩,
+    refine ⟨⟨Nat.lt_succ_of_lt hg.cur_lt, ?_, ?_, ?_, ?_, ?_, ?_, ?_⟩,
       ⟨Nat.lt_succ_of_lt hl.bi_lt, Nat.lt_succ_of_lt hl.ti_lt, ?_, ?_⟩,
       ⟨Nat.le_succ _, Nat.le_succ _, ?_, ?_, ?_, ?_, ?_⟩, ?_⟩
     · intro i hi
@@ -646,6 +678,14 @@ theorem own_alloc {cfg sh t l} (hg : GInv sh) (hl : LInv cfg sh t l) (hpc : l.pc
       · rename_i hne
         exact hg.nodup k (by simp only at hk; omega)
     · intro h; rw [hlk] at h; cases h
+    · intro i hi o x h
+      rw [hblk]
+      by_cases hin : i = sh.ninners
+      · subst hin
+        simp only [upd_same] at h
+        simpa [Shared.blk, hbi, Block.textAt] using h
+      · simp only [upd_ne _ _ hin] at h
+        exact hg.vers i (by simp only at hi; omega) o x h
     · intro x a h
       have := hl.res x a h
       cases a <;> simp only [ResOK] at this ⊢
@@ -697,13 +737,14 @@ structure Inv (cfg : Cfg) (s : State) : Prop where
   l : ∀ u, LInv cfg s.sh u (s.locals u)
 
 theorem inv_init (cfg : Cfg) (scripts : Tid → List Text) : Inv cfg (init cfg scripts) := by
-  refine ⟨⟨by simp [init, initShared], ?_, ?_, ?_, ?_, ?_, ?_⟩, fun u => ⟨?_, ?_, ?_, ?_⟩⟩
+  refine ⟨⟨by simp [init, initShared], ?_, ?_, ?_, ?_, ?_, ?_, ?_⟩, fun u => ⟨?_, ?_, ?_, ?_⟩⟩
   · intro i _; simp [init, initShared]
   · intro o x h; simp [init, initShared, Shared.blk, Block.textAt] at h
   · intro k _ o ho; simp [init, initShared] at ho
   · intro o1 o2 x h; simp [init, initShared, Shared.blk, Block.textAt] at h
   · intro k _; simp [init, initShared]
   · intro _ o x h; simp [init, initShared, Shared.blk, Block.textAt] at h
+  · intro i _ o x h; simp [init, initShared, Block.textAt] at h
   · simp [init, initShared, initLocal]
   · simp [init, initShared, initLocal]
   · intro x a h; simp [init, initLocal] at h
